@@ -66,9 +66,10 @@ class Gen(object):
         # canonicalises, strips, folds or truth-tests them merges or loses objects.
         self.idclass = "plain"
         if not hostile:
-            self.idclass = {5: "nf", 6: "case", 7: "blank", 8: "empty", 9: "format"}.get(seed % 10, "plain")
+            self.idclass = {4: "prefix", 5: "nf", 6: "case", 7: "blank", 8: "empty", 9: "format"}.get(seed % 10, "plain")
         self.nfmix = self.idclass == "nf"
-        pair = {"nf": lambda x: (x + "\u00e9", x + "e\u0301"),
+        pair = {"prefix": lambda x: (x + "7", x + "70"),          # one identifier is the beginning of the other
+                "nf": lambda x: (x + "\u00e9", x + "e\u0301"),
                 "case": lambda x: (x.lower() + "k", x.upper() + "K"),
                 "blank": lambda x: (x, [x + "\n", " " + x, x + "\x7f", x + "\u200b", x + "="][seed // 10 % 5]),
                 "empty": lambda x: ("", x),
@@ -399,4 +400,5 @@ def generate(seed, style=None, **kw):
     if style == "life":
         from .lifegen import LifeGen
         return LifeGen(seed, **kw).gen()
+    kw.pop("jumps", None)          # (LifeGen only)
     return Gen(seed, **kw).gen()
